@@ -38,7 +38,7 @@ VDOC = "/sim/doc.xml"
 ENV = dict(os.environ)
 ENV["CARGO_NET_OFFLINE"] = "true"
 
-QUICK_CASES = 1000
+QUICK_CASES = 1500
 THOROUGH_CASES = 60000
 
 
